@@ -47,8 +47,26 @@ CHUNK = 1 << 22
 
 def phases(tier: str) -> List[Dict[str, Any]]:
     if tier == "quick":
-        return [{"name": "enum", "runs": 1280, "batch": 8, "timeout": 400, "wall": 120}]
-    return [{"name": "enum", "runs": 20000, "batch": 25, "timeout": 1800, "wall": 1500}]
+        return [{"name": "enum", "runs": 1280, "batch": 8, "timeout": 400, "wall": 120},
+                {"name": "known", "runs": 2, "explicit": True, "timeout": 300, "wall": 60}]
+    return [{"name": "enum", "runs": 20000, "batch": 25, "timeout": 1800, "wall": 1500},
+            {"name": "known", "runs": 2, "explicit": True, "timeout": 300, "wall": 60}]
+
+
+def explicit_plans(tier: str, phase: str) -> List[Dict[str, Any]]:
+    """Deterministic probe of the recorded finding D18: torch.set_flush_denormal(True)."""
+    return [{"phase": "known", "flush_denormal": True, "fmts": [[E, M, sr]], "timeout": 300, "shrink_budget": 0,
+             "ops": [{"cls": "subnormal", "iseed": 5, "skip": 0, "n": 64, "shape2d": False, "f": 0},
+                     {"cls": "representable", "iseed": 6, "skip": 0, "n": 256, "shape2d": False, "f": 0}]}
+            for E, M, sr in ((4, 3, 3), (5, 2, 0))]
+
+
+def neutralise(plan: Dict[str, Any], finding: Dict[str, Any]) -> Optional[Dict[str, Any]]:
+    if finding.get("id") == "D18" and plan.get("flush_denormal"):
+        c = copy.deepcopy(plan)
+        c["flush_denormal"] = False  # counterfactual: the default floating-point mode
+        return c
+    return None
 
 
 def generate(seed: int, tier: str, phase: str) -> Dict[str, Any]:
@@ -191,6 +209,8 @@ def execute(plan: Dict[str, Any]) -> Dict[str, Any]:
 
     res = empty_result()
     log = core.EventLog()
+    flush = bool(plan.get("flush_denormal"))
+    torch.set_flush_denormal(flush)
     fmts = plan.get("fmts") or [plan["fmt"]]
     probes: Dict[str, int] = {}
     states: List[str] = []
@@ -341,6 +361,10 @@ def execute(plan: Dict[str, Any]) -> Dict[str, Any]:
                 log.add("keyed", core.tensor_digest(out))
     except Violation as v:
         res["violation"] = v.as_dict()
+        if flush and v.invariant == "neighbour":
+            res["violation"]["culprit"] = "subnormal_range_flushed_with_flush_denormal"
+    finally:
+        torch.set_flush_denormal(False)
     res["digest"] = log.digest()
     res["steps"] = log.steps
     res["probes"] = probes
